@@ -27,7 +27,9 @@ CONSTANT CheckM
 VARIABLE l
 Rec == ndJsonDeserialize(IOEnv.TRACE)
 
-CaseOf(r) == [chain |-> r.chain, inst |-> r.inst, layer |-> r.layer, lname |-> r.lname, leaf |-> r.leaf, ln |-> r.ln, m |-> r.m, a |-> r.a]
+\* the size class is bound from the log: the logged length against the bounds the harness read from the code
+CaseOf(r) == [chain |-> r.chain, inst |-> r.inst, layer |-> r.layer, lname |-> r.lname, leaf |-> r.leaf, ln |-> r.ln, m |-> r.m, a |-> r.a,
+              sz |-> IF r.len > r.maxsize THEN "big" ELSE IF r.len < r.minsize THEN "small" ELSE "ok"]
 
 Viol(mon, r, run) ==
   PrintT(<<"VIOL", ToJson([p |-> "C09", m |-> mon, line |-> l, i |-> r.i, kind |-> r.kind, ep |-> run.ep, res |-> run.res,
